@@ -12,16 +12,44 @@ partition costs a few milliseconds and a quick run covers thousands of distinct 
   the 'None' marker and the empty object; stitch switches / services / ports (with and without delegations);
   links whose two ends are delegated differently; ports with several links; delegated links.
 
-Entry texts are canonical JSON (`lib_substrate.cj`) of what Delegations.to_json writes, so they survive
-from_json/to_json unchanged and can be compared as text.
+Entry texts are canonical JSON (`lib_substrate.cj`) of values that Delegations.from_json accepts; a third of the label
+details are list-valued or falsy-but-valid (lists not in sorted order, with repeats, of one element, empty; '' values),
+the way other tooling than the library's own Labels objects writes them. They are compared as JSON values.
 """
 from lib_substrate import cj
 
 CP, LINK, NS, NN, COMP = "ConnectionPoint", "Link", "NetworkService", "NetworkNode", "Component"
 IDS = ["d1", "d2", "d3", "d4"]
 
-_LAB = [{"vlan_range": "1-100"}, {"vlan_range": "1-4096", "local_name": "p1"}, {"bdf": "0000:41:00.0"}, {"local_name": "HundredGigE0/0/0/5"}]
-_CAP = [{"unit": 1}, {"bw": 100}, {"core": 32, "ram": 128, "disk": 100}, {"unit": 4, "bw": 25}]
+_LAB = [{"vlan_range": "1-100"}, {"vlan_range": "1-4096", "local_name": "p1"}, {"bdf": "0000:41:00.0"}, {"local_name": "HundredGigE0/0/0/5"},
+        # written by other tooling than the library's own Labels objects (a model file, a property set directly): list-valued labels in
+        # the order the operator gave them (not sorted), with repeats, of one element, empty; falsy-but-valid values
+        {"vlan_range": ["3000-3100", "1000-1100"]}, {"vlan_range": ["200-300", "100-150", "200-300"], "mac": "00:00:00:00:02:01"},
+        {"ipv4_range": ["192.168.2.1-192.168.2.10", "192.168.1.1-192.168.1.10"], "ipv6_range": ["2001:db8::10-2001:db8::20", "2001:db8::1-2001:db8::5"]},
+        {"mac": ["0C:42:A1:EA:C7:61", "0C:42:A1:EA:C7:60"], "local_name": ["p2", "p1", "p2"]}, {"vlan": ["200", "100", "200"], "bdf": ["0000:41:00.1", "0000:41:00.0"]},
+        {"ipv4_subnet": ["192.168.2.0/24", "192.168.1.0/24"], "ipv6_subnet": ["2001:db8:1::/64", "2001:db8::/64"], "asn": ["65001", "65000"]},
+        {"vlan_range": ["7-9"]}, {"vlan_range": [], "local_name": ""}, {"ipv6": "", "instance": "", "device_name": ["", ""]}, {"numa": ["1", "0", "1"], "inner_vlan": ["30", "20"]},
+        {"ipv4": ["192.168.1.2", "192.168.1.1"], "ipv6": ["2001:db8::2", "2001:db8::1"], "local_type": ["t2", "t1"], "instance_parent": ["b", "a"]}]
+_CAP = [{"unit": 1}, {"bw": 100}, {"core": 32, "ram": 128, "disk": 100}, {"unit": 4, "bw": 25}, {"cpu": 2, "burst_size": 8, "mtu": 9000}]
+
+
+def entry_features(text):
+    """histogram keys for the value classes an entry text has (list-valued fields: order, repeats, empty; '' values)"""
+    import json
+    e = json.loads(text)
+    out = set()
+    for k, v in (e.get("labels") or e.get("capacities") or {}).items():
+        if isinstance(v, list):
+            out.add("entry:list-valued")
+            if v != sorted(v):
+                out.add("entry:list-not-in-sorted-order")
+            if len(set(v)) != len(v):
+                out.add("entry:list-with-repeats")
+            if len(v) < 2:
+                out.add("entry:list-of-%d" % len(v))
+        if v == "" or v == [] or v == 0:
+            out.add("entry:falsy-value")
+    return out
 
 
 def entry(rng, t, kind="single", pool=None):
@@ -234,6 +262,8 @@ def synth_case(rng, big=False, tiny=False):
         b.count("shape:link-ends-delegated-differently")
     if any(not owners(p) for ps in ends.values() for p in ps):
         b.count("shape:link-end-delegated-to-nobody")
+    for f in sorted({f for n in b.nodes for v in (n[3], n[4]) if v for e in v for f in entry_features(e[1])}):
+        b.count(f)
     b.count("nodes:%s" % ("<=8" if len(b.nodes) <= 8 else "9-16" if len(b.nodes) <= 16 else "17-30" if len(b.nodes) <= 30 else ">30"))
     return {"nodes": b.nodes, "edges": b.edges}, b.hist
 
